@@ -299,6 +299,11 @@ def class_snapshot(models):
                 if k not in ('__dict__', '__weakref__', '_abc_impl')))
             snap['%d.%s.bases' % (i, name)] = tuple(
                 id(b) for b in cls.__bases__)
+            # content of mutable class attributes (a dict such as
+            # _yatiml_defaults can be changed without being replaced)
+            snap['%d.%s.content' % (i, name)] = tuple(sorted(
+                (k, repr(v)) for k, v in vars(cls).items()
+                if isinstance(v, (dict, list, set))))
     return snap
 
 
